@@ -32,6 +32,12 @@ EXITS = ["fall", "break", "continue"]
 
 
 def gen_cases(tier, seed):
+    for form in EMPTY_FORMS:
+        for host in HOSTS:
+            for shadow in (False, True):
+                for reader in ("if", "for", "match", "plain"):
+                    yield {"t": "empty", "form": form, "host": host, "shadow": shadow, "reader": reader}
+    yield {"_marker": "empty-blocks", "forms": len(EMPTY_FORMS)}
     cases = list(enum_cases(tier))
     # deterministic shuffle so that a short budget still spreads over the whole space
     random.Random(seed).shuffle(cases)
@@ -62,6 +68,71 @@ def enum_cases(tier):
             for loop in ("while", "for"):
                 for decl in range(0, n + 1):
                     yield {"t": "session-return", "loop": loop, "path": list(path), "decl": decl}
+
+
+EMPTY_FORMS = ["let-match", "stmt-match", "let-match-mixed", "for-empty", "for-destructure-empty", "if-empty", "nested-empty"]
+
+
+def build_empty(case):
+    """A binder whose block is EMPTY (so nothing inside ever consumes the pending bindings), then a new block that reads it."""
+    some1 = E("some", ["Option", INT], e=E("int", INT, v=1))
+    ints = E("list", ["List", INT], items=[E("int", INT, v=1), E("int", INT, v=2)])
+    pairs = E("list", ["List", ["Tuple", [INT, INT]]], items=[E("tuple", ["Tuple", [INT, INT]], items=[E("int", INT, v=3), E("int", INT, v=4)])])
+
+    def m(arm_body, none_body):
+        return E("match", UNIT, False, False, stmt=True, scrut=some1,
+                 arms=[{"variant": "Some", "bind": ["v", 0], "body": arm_body}, {"variant": "None", "bind": None, "body": none_body}])
+    form = case["form"]
+    stmts = []
+    if case["shadow"]:
+        stmts.append({"k": "let", "name": "v", "bid": 0, "ann": None, "e": E("int", INT, v=100)})
+    if form == "let-match":
+        stmts.append({"k": "let", "name": "r", "bid": 0, "ann": None, "e": m([], [])})
+    elif form == "stmt-match":
+        stmts.append({"k": "expr", "e": m([], [])})
+    elif form == "let-match-mixed":
+        stmts.append({"k": "let", "name": "r", "bid": 0, "ann": None, "e": m([], [marker("none")])})
+    elif form == "for-empty":
+        stmts.append({"k": "for", "dest": {"v": ["v", 0]}, "e": ints, "body": []})
+    elif form == "for-destructure-empty":
+        stmts.append({"k": "for", "dest": {"d": [["w", 0], ["v", 0]]}, "e": pairs, "body": []})
+    elif form == "if-empty":
+        stmts.append({"k": "expr", "e": m([{"k": "expr", "e": E("if", UNIT, False, False, stmt=True, cond=E("bool", BOOL, v=True), then=[], els=[])}], [])})
+    else:
+        stmts.append({"k": "let", "name": "r", "bid": 0, "ann": None,
+                      "e": m([{"k": "expr", "e": m([], [])}], [])})
+    stmts.append(marker("mid"))
+    read = prn(var("v"))
+    rd = case["reader"]
+    if rd == "if":
+        stmts.append({"k": "expr", "e": E("if", UNIT, False, False, stmt=True, cond=E("bool", BOOL, v=True), then=[read], els=None)})
+    elif rd == "for":
+        stmts.append({"k": "for", "dest": {"v": ["q", 0]}, "e": ints, "body": [read]})
+    elif rd == "match":
+        stmts.append({"k": "expr", "e": E("match", UNIT, False, False, stmt=True, scrut=some1,
+                                         arms=[{"variant": "Some", "bind": ["q", 0], "body": [read]}, {"variant": "None", "bind": None, "body": []}])})
+    else:
+        stmts.append(read)
+    stmts.append(marker("after"))
+    return wrap_host(case["host"], stmts)
+
+
+def wrap_host(host, stmts):
+    prog = {"enums": [], "structs": [], "funs": [], "main": []}
+    if host == "top":
+        prog["main"] = stmts
+    elif host in ("fun", "method"):
+        prog["funs"].append({"name": "host", "params": [], "ret": UNIT, "pure": False, "total": False,
+                             "body": stmts + [{"k": "expr", "e": E("unit", UNIT)}], "method": host == "method"})
+        if host == "fun":
+            prog["main"] = [{"k": "expr", "e": E("call", UNIT, False, False, fn="host", args=[])}]
+        else:
+            prog["main"] = [{"k": "expr", "e": E("mcall", UNIT, False, False, recv=E("int", INT, v=1), m="host", args=[], user=True)}]
+    else:
+        lam = E("lambda", ["Fun", [], UNIT], params=[], ret=UNIT, body=stmts + [{"k": "expr", "e": E("unit", UNIT)}])
+        prog["main"] = [{"k": "let", "name": "host", "bid": 0, "ann": None, "e": lam},
+                        {"k": "expr", "e": E("callv", UNIT, False, False, f=E("var", lam["ty"], name="host", bid=0), args=[])}]
+    return prog
 
 
 def var(n):
@@ -174,6 +245,8 @@ def run_batch(cases):
         for case in cases:
             if case["t"] == "enum":
                 out.append(run_prog(case, build_enum(case), sc, keyof(case)))
+            elif case["t"] == "empty":
+                out.append(run_prog(case, build_empty(case), sc, keyof(case)))
             elif case["t"] == "session-return":
                 out.append(run_session_return(case, sc))
             else:
@@ -208,6 +281,8 @@ def run_prog(case, prog, sc, key):
         sig = "variable-outlives-block" if leak else ("shadowed-outer-value-wrong" if case.get("shadow") else "scoping-differs")
         if case.get("t") == "enum":
             sig += ":" + case["exit"]
+        elif case.get("t") == "empty":
+            sig += ":empty-block:" + case["form"]
         return {"status": "violated", "key": key, "sig": sig, "detail": detail}
     return {"status": "held", "key": key}
 
